@@ -187,9 +187,31 @@ def rle_rule(prog, run, R="R6"):
             s_, d, tk = gs[-1]
             desc = "%s -> %s" % (sym.show(d)[:120], tk)
             val_path = cnt_path[:-1] + "1" if cnt_path.endswith(".0") else None
+
+            def same_path(a_, b_):
+                # the run reached through `last_mut()`: the guard may read it through the Option the call returned
+                # (`_k.as Some.0.*.1` with _k = last_mut(&mut entries)) instead of the resolved element path `entries.[].1`
+                norm_ = lambda q: str(q).replace(".*", "")
+                if norm_(a_) == norm_(b_):
+                    return True
+                import re as _re
+                m_ = _re.match(r"^_(\d+)\.as Some\.0(?:\.\*)?\.(\w+)$", str(a_))
+                mb = _re.match(r"^_(\d+)\.\[\]\.(\w+)$", str(b_))
+                if m_ and mb and m_.group(2) == mb.group(2):
+                    for d_ in mir.defs(b).get(int(m_.group(1)), []):
+                        if d_[0] != "stmt":
+                            nm_, _i = mir.callee(d_[2])
+                            if nm_ and mir.norm(nm_).split("::")[-1] in ("last_mut", "last") and d_[2]["args"]:
+                                src_ = sym.expr(b, d_[2]["args"][0])
+                                while src_[0] == "ref" or (src_[0] == "call" and src_[1].split("::")[-1] in ("deref_mut", "deref", "as_mut_slice", "as_slice") and src_[2]):
+                                    src_ = src_[1] if src_[0] == "ref" else src_[2][0]
+                                want_ = sym.expr_local(b, int(mb.group(1)))
+                                if src_ == want_ or any(isinstance(y, tuple) and y[:2] == ("var", int(mb.group(1))) for y in sym.walk(src_)):
+                                    return True
+                return False
             if d[0] == "bin" and d[1] == "Eq" and guards.truth(tk) and val_path:
                 sides = [d[2], d[3]]
-                is_val = [x for x in sides if x[0] == "load" and x[1] == val_path]
+                is_val = [x for x in sides if x[0] == "load" and same_path(x[1], val_path)]
                 is_elem = [x for x in sides if x[0] == "load" and str(x[1]).startswith("arg1.[]")]
                 ok = len(is_val) == 1 and len(is_elem) == 1
         run.check(ok, R, want + " merge-guard", "run extended only under `run.value == element`", "the run count is incremented under `%s`, which is not exact equality of the run's value with the current element: distinct durations/offsets are merged" % desc, mir.loc_of(node))
